@@ -140,7 +140,7 @@ pub trait Harness: Sync {
     /// values (rounding noise of quantities that are zero analytically); 0 for harnesses whose goals are pure
     /// products / powers, where the relative comparison is always meaningful
     fn noise_floor_factor(&self) -> f64 {
-        1e-9
+        0.0
     }
     /// is a feasible panic path a violation?
     fn panic_is_violation(&self) -> bool {
@@ -987,7 +987,8 @@ pub fn check_harness<H: Harness>(h: &H, cfg: &RunCfg) -> PartResult {
     };
     // native pre-pass: the points the solver produced for the feasible paths are run through the real code
     // natively; goals that already fail there are violations (no need to ask the solver about them again)
-    let mut failed_natively: BTreeSet<String> = BTreeSet::new();
+    // goal name -> (path whose point showed the failure, completed point, description, gross failure?)
+    let mut failed_natively: BTreeMap<String, (usize, BTreeMap<String, f64>, String, bool)> = BTreeMap::new();
     {
         let mut stage1_models0: HashMap<usize, BTreeMap<String, f64>> = HashMap::new();
         for (j, k) in stage1.iter().enumerate() {
@@ -995,14 +996,14 @@ pub fn check_harness<H: Harness>(h: &H, cfg: &RunCfg) -> PartResult {
                 stage1_models0.entry(*path).or_default().extend(m.clone());
             }
         }
-        let mut fill = cfg.seed ^ 0x77aa;
-        let mut tried = 0;
         // harnesses without path conditions have no solver-produced point: a few seeded points instead
         if stage1_models0.is_empty() {
             for k in 0..8usize {
                 stage1_models0.insert(usize::MAX - k, BTreeMap::new());
             }
         }
+        let mut fill = cfg.seed ^ 0x77aa;
+        let mut tried = 0;
         let mut paths_sorted: Vec<&usize> = stage1_models0.keys().collect();
         paths_sorted.sort();
         for p in paths_sorted {
@@ -1014,20 +1015,15 @@ pub fn check_harness<H: Harness>(h: &H, cfg: &RunCfg) -> PartResult {
             if panic.is_some() || !assumes_hold(&o) {
                 continue;
             }
-            let floor = noise_floor(&o, h.tol(), h.noise_floor_factor());
+            // "gross": far beyond anything rounding can produce, relative to the largest magnitude in the run
+            let gross_floor = noise_floor(&o, 1.0, 1e-6);
             for g in &o.goals {
-                if failed_natively.contains(&g.name) {
+                if failed_natively.contains_key(&g.name) {
                     continue;
                 }
-                if let Some(d) = native_violation_floor(g, h.tol(), floor) {
-                    failed_natively.insert(g.name.clone());
-                    res.violations.push(Violation {
-                        goal: g.name.clone(),
-                        site: h.name(),
-                        witness_class: "goal-fails".into(),
-                        desc: format!("{} (at the point the solver produced for path {})", d, p),
-                        replay: json!({"harness": h.name(), "goal": g.name, "model": full}),
-                    });
+                if let Some(d) = native_violation(g, h.tol()) {
+                    let gross = native_violation_floor(g, h.tol().max(1e-6), gross_floor).is_some();
+                    failed_natively.insert(g.name.clone(), (*p, full.clone(), format!("{} (at the point the solver produced for path {})", d, p), gross));
                 }
             }
         }
@@ -1055,8 +1051,26 @@ pub fn check_harness<H: Harness>(h: &H, cfg: &RunCfg) -> PartResult {
     let stage2: Vec<usize> = (0..queries.len())
         .filter(|k| !matches!(kinds[*k], QKind::Feasible { .. }) && !pruned.contains(&path_of(*k)))
         .filter(|k| !matches!(&kinds[*k], QKind::Witness { name, .. } if witness_found_early.contains(name)))
-        .filter(|k| !matches!(&kinds[*k], QKind::Goal { name, .. } if failed_natively.contains(name)))
         .collect();
+    // a goal that failed natively is a *candidate*: one representative query (the path of the failing point if it
+    // has one, else the first) is still put to the solver, which decides whether it is a violation or rounding noise
+    let stage2: Vec<usize> = {
+        let mut rep: BTreeMap<String, usize> = BTreeMap::new();
+        for &k in &stage2 {
+            if let QKind::Goal { path, name } = &kinds[k] {
+                if let Some((p, ..)) = failed_natively.get(name) {
+                    let e = rep.entry(name.clone()).or_insert(k);
+                    if path == p {
+                        *e = k;
+                    }
+                }
+            }
+        }
+        stage2.into_iter().filter(|k| match &kinds[*k] {
+            QKind::Goal { name, .. } if failed_natively.contains_key(name) => rep.get(name) == Some(k),
+            _ => true,
+        }).collect()
+    };
     let q2: Vec<Query> = stage2.iter().map(|k| queries[*k].clone()).collect();
     let (v2, st2) = run_queries(&solver, &q2);
     // second opinion: a sample of the decided queries goes to the other z3 build; a disagreement voids the run
@@ -1301,6 +1315,27 @@ pub fn check_harness<H: Harness>(h: &H, cfg: &RunCfg) -> PartResult {
             (QKind::Goal { path, name }, ans) | (QKind::CutJustify { path, name }, ans) => {
                 if feasible.get(path) == Some(&false) {
                     continue; // infeasible path: nothing to prove
+                }
+                if let Answer::Unknown(r) = ans {
+                    if r.starts_with("skipped") {
+                        continue; // not put to the solver (another query represents this goal)
+                    }
+                }
+                let candidate = if matches!(&kinds[k], QKind::Goal { .. }) { failed_natively.get(name) } else { None };
+                if let (Some((_, full, desc, gross)), Answer::Unknown(r)) = (candidate, ans) {
+                    if r.starts_with("skipped") {
+                        continue;
+                    }
+                    if *gross {
+                        res.violations.push(Violation { goal: name.clone(), site: h.name(), witness_class: "goal-fails".into(), desc: format!("{} [solver: {}; the native failure is far beyond rounding]", desc, r), replay: json!({"harness": h.name(), "goal": name, "model": full}) });
+                    } else {
+                        res.inconclusive.push(format!("{}: fails natively by a small margin and the solver did not answer ({})", q.label, r));
+                    }
+                    continue;
+                }
+                if let (Some((_, full, desc, _)), Answer::Sat(_)) = (candidate, ans) {
+                    res.violations.push(Violation { goal: name.clone(), site: h.name(), witness_class: "goal-fails".into(), desc: desc.clone(), replay: json!({"harness": h.name(), "goal": name, "model": full}) });
+                    continue;
                 }
                 match ans {
                     Answer::Unsat => res.goals_proved += 1,
